@@ -550,18 +550,21 @@ func moveRec(name string, in *tarFile, out *tarFile, picked map[string]struct{})
 	if err := moveRec(parent, in, out, picked); err != nil {
 		return err
 	}
-	if e, ok := in.get(name); ok && e.header.Typeflag == tar.TypeLink {
+	if _, done := picked[name]; done {
+		return nil
+	}
+	e, ok := in.get(name)
+	if !ok {
+		return nil
+	}
+	// Mark this entry before following its link so that a loop of hardlinks terminates.
+	picked[name] = struct{}{}
+	if e.header.Typeflag == tar.TypeLink {
 		if err := moveRec(e.header.Linkname, in, out, picked); err != nil {
 			return err
 		}
 	}
-	if _, done := picked[name]; done {
-		return nil
-	}
-	if e, ok := in.get(name); ok {
-		out.add(e)
-		picked[name] = struct{}{}
-	}
+	out.add(e)
 	return nil
 }
 
